@@ -8,7 +8,7 @@ use deno_ast::swc::common::SyntaxContext;
 use deno_ast::swc::utils::ExprCtx;
 use deno_ast::swc::{
   ecma_visit::{noop_visit_type, Visit, VisitWith},
-  utils::{ExprExt, Value},
+  utils::{ExprExt, Purity, Value},
 };
 use deno_ast::view;
 use deno_ast::SourcePos;
@@ -386,6 +386,16 @@ impl Analyzer<'_> {
   }
 }
 
+/// Whether a loop test always evaluates to true *and* evaluating it has no
+/// side effects. `foo() || true` is always true as well, but `foo()` may
+/// throw: such a loop can be left, into an enclosing `catch`.
+fn is_always_true(test: &Expr, expr_ctxt: ExprCtx) -> bool {
+  matches!(
+    test.cast_to_bool(expr_ctxt),
+    (Purity::Pure, Value::Known(true))
+  )
+}
+
 impl Visit for Analyzer<'_> {
   noop_visit_type!();
 
@@ -666,7 +676,7 @@ impl Visit for Analyzer<'_> {
             forced_end = Some(end);
           }
           Some(test) => {
-            if matches!(test.cast_to_bool(expr_ctxt), (_, Value::Known(true))) {
+            if is_always_true(test, expr_ctxt) {
               a.mark_as_end(n.start(), end);
               forced_end = Some(end);
             }
@@ -720,8 +730,7 @@ impl Visit for Analyzer<'_> {
     self.with_child_scope(BlockKind::Loop, body_lo, |a| {
       n.body.visit_with(a);
 
-      let unconditionally_enter =
-        matches!(n.test.cast_to_bool(expr_ctxt), (_, Value::Known(true)));
+      let unconditionally_enter = is_always_true(&n.test, expr_ctxt);
       let end_reason = a.get_stmt_end_reason(&n.body);
       let return_or_throw = end_reason.is_some_and(|e| e.is_forced());
       let has_break = matches!(a.scope.found_break, Some(None));
@@ -754,8 +763,7 @@ impl Visit for Analyzer<'_> {
       let end_reason = a.get_stmt_end_reason(&n.body);
       let return_or_throw = end_reason.is_some_and(|e| e.is_forced());
       let infinite_loop =
-        matches!(n.test.cast_to_bool(expr_ctxt), (_, Value::Known(true)))
-          && a.scope.found_break.is_none();
+        is_always_true(&n.test, expr_ctxt) && a.scope.found_break.is_none();
       let has_break = matches!(a.scope.found_break, Some(None));
       // A `continue` in the body jumps to the test, which may then end the loop
       // even though the rest of the body always returns or throws.
